@@ -52,6 +52,42 @@ func c07ListTargets(root *tree.SNode, data *tree.Cont) []c07target {
 	return out
 }
 
+// c07UnsetDefaults: a copy of data in which the first row of every list has no value for its
+// non-key leaves that have a default
+func c07UnsetDefaults(root *tree.SNode, data *tree.Cont) *tree.Cont {
+	out := data.Clone()
+	var walk func(s *tree.SNode, c *tree.Cont)
+	walk = func(s *tree.SNode, c *tree.Cont) {
+		for _, kid := range s.Kids {
+			switch kid.Kind {
+			case tree.KCont:
+				if sub, ok := c.Conts[kid.Name]; ok {
+					walk(kid, sub)
+				}
+			case tree.KList:
+				if l, ok := c.Lists[kid.Name]; ok {
+					for i, row := range l.Rows {
+						if i == 0 {
+							isKey := map[int]bool{}
+							for _, k := range kid.Keys {
+								isKey[k] = true
+							}
+							for j, leaf := range kid.Kids {
+								if leaf.Kind == tree.KLeaf && !isKey[j] && leaf.Leafable().HasDefault() {
+									delete(row.Leaves, leaf.Name)
+								}
+							}
+						}
+						walk(kid, row)
+					}
+				}
+			}
+		}
+	}
+	walk(root, out)
+	return out
+}
+
 func (t c07target) isList() bool { return t.list != nil }
 
 // containers and lists present below the target (what fc.max-node-count bounds)
@@ -62,6 +98,22 @@ func (t c07target) nodes() int {
 	n := 0
 	for _, row := range t.list.Rows {
 		n += countNodes(t.s, row)
+	}
+	return n
+}
+
+// listScore ranks list targets: containers / lists below the rows, and a row that leaves a leaf with a
+// default unset counts most
+func (t c07target) listScore() int {
+	n := t.nodes()
+	for _, row := range t.list.Rows {
+		for _, kid := range t.s.Kids {
+			if kid.Kind == tree.KLeaf && kid.Leafable().HasDefault() {
+				if _, set := row.Leaves[kid.Name]; !set {
+					return n + 50
+				}
+			}
+		}
 	}
 	return n
 }
@@ -420,5 +472,5 @@ func c07ListTargetCases(ctx *core.Ctx, g *c07gen, add func(label string, queries
 	if err := add("list-pair", q(g.smallDepth(), g.xfields())); err != nil {
 		return err
 	}
-	return c07Chains(ctx, g, ctx.Scale(5, 16), add)
+	return c07Chains(ctx, g, ctx.Scale(5, 12), add)
 }
